@@ -386,7 +386,7 @@ structure DCtx (K : Ctx W cb) where
 /-- the bytes emitted so far have been processed; the receiver's line `i` is `x` columns into the diff -/
 def DrawnD (K : Ctx W cb) (D : DCtx K) (x : Nat) (st : Row.FmtSt) : Prop :=
   ∃ Ri, Emitted W cb K.p0 st.out (shape K.r0 K.i Ri st.prevPos st.prevAttrs) ∧ Mid K.src D.prv x Ri ∧ Bytes st.out ∧
-    st.prevPos.col ≤ K.src.length
+    (st.prevPos.col ≤ K.src.length ∧ (Attrs.wf K.r0.pen → Attrs.wf st.prevAttrs))
 
 theorem cells_of_emitted (hW32 : W 32 = some 1) (K : Ctx W cb) (D : DCtx K) {out : List Nat} {Ri : Row} {pos : Pos}
     {pen : Attrs} (hb : Bytes out) (hem : Emitted W cb K.p0 out (shape K.r0 K.i Ri pos pen)) : CellsInv W Ri.cells := by
@@ -397,7 +397,7 @@ theorem cells_of_emitted (hW32 : W 32 = some 1) (K : Ctx W cb) (D : DCtx K) {out
 theorem drawnD_congr (K : Ctx W cb) (D : DCtx K) {x : Nat} {st st' : Row.FmtSt} (h : DrawnD K D x st) (ho : st'.out = st.out)
     (hp : st'.prevPos = st.prevPos) (ha : st'.prevAttrs = st.prevAttrs) : DrawnD K D x st' := by
   obtain ⟨Ri, hem, hl, hb, hc⟩ := h
-  exact ⟨Ri, by rw [ho, hp, ha]; exact hem, hl, by rw [ho]; exact hb, by rw [hp]; exact hc⟩
+  exact ⟨Ri, by rw [ho, hp, ha]; exact hem, hl, by rw [ho]; exact hb, by rw [hp, ha]; exact hc⟩
 
 /-- the emitter's cursor move and pen change before an erase run is flushed -/
 theorem eraseMove_drawnD (K : Ctx W cb) (D : DCtx K) {x : Nat} {st : Row.FmtSt} (h : DrawnD K D x st)
@@ -426,7 +426,7 @@ theorem eraseMove_drawnD (K : Ctx W cb) (D : DCtx K) {x : Nat} {st : Row.FmtSt} 
     have hpp : (Row.eraseMove K.src.length K.i false st e a).prevPos = ⟨K.i, e⟩ := rfl
     refine ⟨⟨Ri, ?_, hmid, hb', ?_⟩, hpp, hpa, rfl, rfl⟩
     · rw [hout, hpp, hpa]; exact h2
-    · rw [hpp]; exact Nat.le_of_lt he
+    · rw [hpp, hpa]; exact ⟨Nat.le_of_lt he, fun _ => hwf⟩
   · have hpa' : st.prevAttrs = a := by simpa using hp
     have hout : (Row.eraseMove K.src.length K.i false st e a).out = st.out ++ Term.moveFromTo st.prevPos ⟨K.i, e⟩ := by
       simp [Row.eraseMove, hp]
@@ -434,7 +434,7 @@ theorem eraseMove_drawnD (K : Ctx W cb) (D : DCtx K) {x : Nat} {st : Row.FmtSt} 
     have hpp : (Row.eraseMove K.src.length K.i false st e a).prevPos = ⟨K.i, e⟩ := rfl
     refine ⟨⟨Ri, ?_, hmid, hb', ?_⟩, hpp, hpa, rfl, rfl⟩
     · rw [hout, hpp, hpa, ← hpa']; exact h1
-    · rw [hpp]; exact Nat.le_of_lt he
+    · rw [hpp, hpa]; exact ⟨Nat.le_of_lt he, fun _ => hwf⟩
 
 /-- the simulation invariant between cells (not in the middle of a wide character) -/
 structure Inv1D (K : Ctx W cb) (D : DCtx K) (j : Nat) (st : Row.FmtSt) : Prop where
@@ -584,6 +584,7 @@ theorem draw_textD (K : Ctx W cb) (D : DCtx K) (hW : WOk W) (hS : SrcOk W K.src)
     · rw [hw2] at h3
       simpa [afterText, Cell.isWide, hwide] using h3
     · have := ht.fits
+      refine ⟨?_, fun _ => hS.wf j hj⟩
       simp only [afterText, Cell.isWide, hwide, ↓reduceIte]
       unfold C05.effWidth at hw2; omega
   · have hwide' : K.src[j].wide = false := by simpa using hwide
@@ -595,7 +596,8 @@ theorem draw_textD (K : Ctx W cb) (D : DCtx K) (hW : WOk W) (hS : SrcOk W K.src)
     refine ⟨_, ?_, hmid.typed1 hW.space hS D.hP hci hj hnc hwide' K.r0.g.size.cols K.src[j].attrs f hw1 cellF hvF', hb3, ?_⟩
     · rw [hw1] at h3
       simpa [afterText, Cell.isWide, hwide'] using h3
-    · simp only [afterText, Cell.isWide, hwide', Bool.false_eq_true, ↓reduceIte]
+    · refine ⟨?_, fun _ => hS.wf j hj⟩
+      simp only [afterText, Cell.isWide, hwide', Bool.false_eq_true, ↓reduceIte]
       omega
 
 /-- the invariant of the cell loop -/
@@ -844,7 +846,8 @@ theorem row_diff_draws (hW : WOk W) (hcb : C13.CbInv W cb) (p0 : Parser) (hr : R
     (hRu : Ri0.wrapped = false) (hpc : (rsOf p0.ws).g.pos.col ≤ (rsOf p0.ws).g.size.cols) (pw : Bool) :
     ∃ out np na, sr.writeContentsDiff pr 0 sr.cells.length i false pw (rsOf p0.ws).g.pos (rsOf p0.ws).pen = .ok (out, np, na) ∧
       (∃ Ri, Emitted W cb p0 out (shape (rsOf p0.ws) i Ri np na) ∧ Ri.cells.map view = sr.cells.map view ∧
-        Ri.wrapped = false) ∧ Bytes out ∧ np.col ≤ (rsOf p0.ws).g.size.cols := by
+        Ri.wrapped = false) ∧ Bytes out ∧ np.col ≤ (rsOf p0.ws).g.size.cols ∧
+      (Attrs.wf (rsOf p0.ws).pen → Attrs.wf na) := by
   let K : Ctx W cb := ⟨p0, hr, rsOf p0.ws, hcv, i, hi, sr.cells, hlen⟩
   let D : DCtx K := ⟨pr.cells, by show pr.cells.length = sr.cells.length; rw [hplen, hlen], hP, hpi, hcb⟩
   have hne : 0 < sr.cells.length := by rw [hlen]; exact hcv.cols_pos
@@ -854,7 +857,8 @@ theorem row_diff_draws (hW : WOk W) (hcb : C13.CbInv W cb) (p0 : Parser) (hr : R
       · show Emitted W cb p0 [] (shape (rsOf p0.ws) i Ri0 (rsOf p0.ws).g.pos (rsOf p0.ws).pen)
         rw [shape_self _ _ _ hrow]
         exact emitted_nil W cb p0 hr
-      · show (rsOf p0.ws).g.pos.col ≤ sr.cells.length
+      · refine ⟨?_, fun h => h⟩
+        show (rsOf p0.ws).g.pos.col ≤ sr.cells.length
         rw [hlen]; exact hpc
     · intro e a h; simp [start] at h
   obtain ⟨st', e, hJ⟩ := fold_invD K D hW hS (sr.cells.zip pr.cells) 0 _ (by rfl) (Nat.zero_le _) hJ0
@@ -877,9 +881,9 @@ theorem row_diff_draws (hW : WOk W) (hcb : C13.CbInv W cb) (p0 : Parser) (hr : R
     simp [hsu, hpu]
   rw [hst]
   simp only [ok_bind, hwin, Row.cols, e', hend]
-  refine ⟨_, _, _, rfl, ⟨Ri, hem, ?_⟩, hb, ?_⟩
+  refine ⟨_, _, _, rfl, ⟨Ri, hem, ?_⟩, hb, ?_, hc.2⟩
   · exact hmid.full
-  · have : (Row.fmtFinish sr.cells.length i false st').prevPos.col ≤ sr.cells.length := hc
+  · have : (Row.fmtFinish sr.cells.length i false st').prevPos.col ≤ sr.cells.length := hc.1
     rw [hlen] at this; exact this
 
 end Vt.DiffRow
